@@ -1361,3 +1361,37 @@ Proof.
   - eapply maps_agree_model; eassumption.
   - apply check_registered_model; assumption.
 Qed.
+
+(* --- transition clauses of the checker on the model's own observations ---------------------------- *)
+Lemma row_over_model np na ns r p : p < np ->
+  row (sn_over (snap_of np na ns r)) p =
+  match get p (overlays r) with Some pe => [Z.of_N (p_addr pe); p_role pe] | None => [] end.
+Proof. intros H. unfold row, snap_of. cbn [sn_over]. apply nth_upto, H. Qed.
+
+(* the clause on addPeer's answer (announced-unregistered / unannounced-registration) *)
+Definition enrol_clause (np na ns : N) (r : reg) (c : conn) (pe : peer) (closed : bool) : bool :=
+  let prev := snap_of np na ns r in
+  let sn := snap_of np na ns (step r (Enrol c pe closed)) in
+  if (ret_of r (Enrol c pe closed) =? 0)%Z
+  then negb (reg_in prev (remote c)) && zlist_eqb (row (sn_over sn) (remote c)) [Z.of_N (p_addr pe); p_role pe]
+  else zlist_eqb (row (sn_over sn) (remote c)) (row (sn_over prev) (remote c)).
+
+Lemma enrol_clause_model np na ns evs c pe closed :
+  wf (evs ++ [Enrol c pe closed]) -> remote c < np ->
+  enrol_clause np na ns (run evs) c pe closed = true.
+Proof.
+  intros Hwf Hp. unfold enrol_clause, ret_of, enrol_result.
+  rewrite !row_over_model by exact Hp. rewrite reg_in_model by exact Hp.
+  destruct (snd (add_peer (run evs) c pe closed)) eqn:Es.
+  - (* "exists": the peer's entry is untouched *)
+    cbn [Z.eqb]. unfold step, step_with. unfold add_peer in *. destruct closed; cbn [fst snd] in *; [apply zlist_eqb_refl|].
+    unfold add_peer_open in *. destruct (has (p_addr pe) (underlays (run evs))); cbn [fst snd overlays] in *;
+      [apply zlist_eqb_refl|discriminate].
+  - (* "new": registered by this call with this record, not registered before *)
+    assert (Ha : inbound_announces (run evs) c pe closed = true).
+    { unfold inbound_announces, inbound_announces_with. rewrite Es. reflexivity. }
+    destruct (proj1 (announce_iff evs c pe closed Hwf) Ha) as [Hb _].
+    destruct (announce_details evs c pe closed Hwf Ha) as (_ & Ho & _).
+    rewrite run_snoc in Ho. rewrite Hb, Ho. cbn. rewrite !Z.eqb_refl. reflexivity.
+Qed.
+
